@@ -34,8 +34,8 @@ CONSTANT Devs    \* names of the deviations Expr!Eval implements
 
 Traces == ndJsonDeserialize(IOEnv.TRACE_FILE)
 
-VARIABLES tid, l, pool, verdict, done
-vars == <<tid, l, pool, verdict, done>>
+VARIABLES tid, l, pool, mreg, verdict, done
+vars == <<tid, l, pool, mreg, verdict, done>>
 
 T == Traces[tid]
 NEnv == Len(T.envs)
@@ -64,8 +64,17 @@ NewTree(e, P) ==
                              parts |-> <<[pos |-> 0, t |-> P[e.i]], [pos |-> Width(P[e.i]), t |-> P[e.j]]>>]
     [] e.act = "cond" -> [k |-> "tst", sf |-> 0, c |-> P[e.c], l |-> P[e.i], r |-> P[e.j], w |-> Width(P[e.i])]
     [] e.act = "ext" -> [k |-> "xt", sf |-> 0, sg |-> e.sg, x |-> P[e.i], w |-> e.w]
-    [] e.act \in {"simplify", "pickle", "mapw"} -> P[e.i]
+    [] e.act \in {"simplify", "pickle", "mapw", "setsf"} -> P[e.i]
+    [] e.act = "mset" -> P[e.j]
+    [] e.act = "mget" -> mreg
     [] e.act = "subst" -> Subst(P[e.i], "a", P[e.j])
+
+(* the content of register r after M[r[pos:pos+n]] = v *)
+SetSlice(old, pos, v) ==
+  LET w == Width(old) n == Width(v)
+      lo == IF pos > 0 THEN <<[pos |-> 0, t |-> [k |-> "slc", sf |-> 0, x |-> old, pos |-> 0, w |-> pos]]>> ELSE <<>>
+      hi == IF pos + n < w THEN <<[pos |-> pos + n, t |-> [k |-> "slc", sf |-> 0, x |-> old, pos |-> pos + n, w |-> w - pos - n]]>> ELSE <<>>
+  IN [k |-> "comp", sf |-> 0, w |-> w, parts |-> lo \o <<[pos |-> pos, t |-> v]>> \o hi]
 
 (* first disagreement between an observed tree and the denoted tree over the trace's valuations:
    0 if none, else the index of the valuation *)
@@ -126,6 +135,7 @@ CheckVals(v, vals, P, i, h) ==
 Init == /\ tid \in 1..Len(Traces)
         /\ l = 1
         /\ pool = Leaves(Traces[tid].w)
+        /\ mreg = RegLeaf("r", 2 * Traces[tid].w, 0)
         /\ verdict = [C01 |-> "ok", C12 |-> "ok", C13 |-> "ok", devs |-> {}]
         /\ done = FALSE
 
@@ -134,13 +144,14 @@ Step ==
   /\ l' = l + 1 /\ UNCHANGED <<tid, done>>
   /\ LET e == T.ev[l] IN
      IF e.act = "evals"
-     THEN /\ UNCHANGED pool
+     THEN /\ UNCHANGED <<pool, mreg>>
           /\ verdict' = CheckVals(verdict, e.vals, pool, 1, 1)
      ELSE IF e.act = "frame"
-     THEN /\ UNCHANGED pool
+     THEN /\ UNCHANGED <<pool, mreg>>
           /\ verdict' = CheckAllLive(verdict, e.live, 1, pool, 0)
      ELSE LET t == NewTree(e, pool) P == Append(pool, t) newh == Len(P) IN
           /\ pool' = P
+          /\ mreg' = IF e.act = "mset" THEN SetSlice(mreg, e.pos, pool[e.j]) ELSE mreg
           /\ verdict' =
                IF e.raised # ""
                THEN (IF AlwaysUnknown(t) THEN verdict ELSE Fail(verdict, "C01", "Total", newh, 0))
@@ -152,7 +163,7 @@ Finish ==
   /\ done' = TRUE
   /\ PrintT(ToJson([t |-> T.t, C01 |-> verdict.C01, C12 |-> verdict.C12, C13 |-> verdict.C13,
                     devs |-> verdict.devs, lines |-> l - 1]))
-  /\ UNCHANGED <<tid, l, pool, verdict>>
+  /\ UNCHANGED <<tid, l, pool, mreg, verdict>>
 
 Next == Step \/ Finish
 Spec == Init /\ [][Next]_vars
